@@ -16,6 +16,7 @@ package backend
 
 import (
 	"context"
+	"sync"
 	"sync/atomic"
 	"time"
 
@@ -23,39 +24,60 @@ import (
 )
 
 var (
-	verifClock    int64 // virtual unix seconds returned by the patched time.Now
-	verifClockSet *mockey.Mocker
+	verifClockOn   int32        // 1 while the virtual clock is in force
+	verifClock     int64        // virtual unix seconds
+	verifTickCh    atomic.Value // chan time.Time handed out by the patched time.NewTicker, or nil
+	verifPatchOnce sync.Once
+	verifOrigNow   func() time.Time
+	verifOrigTick  func(time.Duration) *time.Ticker
 )
 
-// VerifSetClock makes time.Now() return the given unix second (patching
-// time.Now on first use) until VerifClearClock is called.
-func VerifSetClock(unix int64) {
-	atomic.StoreInt64(&verifClock, unix)
-	if verifClockSet == nil {
-		verifClockSet = mockey.Mock(time.Now).To(func() time.Time {
-			return time.Unix(atomic.LoadInt64(&verifClock), 0)
-		}).Build()
-	}
+type verifTick struct{ ch chan time.Time }
+
+// verifPatch installs the two patches once per process. They are transparent
+// (call the original function) unless a virtual clock / a hook-owned ticker
+// channel is in force, so they are left in place: installing a patch costs
+// close to a millisecond.
+func verifPatch() {
+	verifPatchOnce.Do(func() {
+		verifTickCh.Store(verifTick{})
+		mockey.Mock(time.Now).To(func() time.Time {
+			if atomic.LoadInt32(&verifClockOn) == 1 {
+				return time.Unix(atomic.LoadInt64(&verifClock), 0)
+			}
+			return verifOrigNow()
+		}).Origin(&verifOrigNow).Build()
+		mockey.Mock(time.NewTicker).To(func(d time.Duration) *time.Ticker {
+			if t := verifTickCh.Load().(verifTick); t.ch != nil {
+				return &time.Ticker{C: t.ch}
+			}
+			return verifOrigTick(d)
+		}).Origin(&verifOrigTick).Build()
+	})
 }
 
-// VerifClearClock removes the time.Now patch.
+// VerifSetClock makes time.Now() return the given unix second until
+// VerifClearClock is called.
+func VerifSetClock(unix int64) {
+	verifPatch()
+	atomic.StoreInt64(&verifClock, unix)
+	atomic.StoreInt32(&verifClockOn, 1)
+}
+
+// VerifClearClock gives time.Now() back to the wall clock.
 func VerifClearClock() {
-	if verifClockSet != nil {
-		verifClockSet.UnPatch()
-		verifClockSet = nil
-	}
+	atomic.StoreInt32(&verifClockOn, 0)
 }
 
 // VerifMasterRound runs exactly one ticker round of the real
-// checkBackendMasterStatus goroutine: time.NewTicker is patched to hand out a
+// checkBackendMasterStatus goroutine: the patched time.NewTicker hands out a
 // ticker whose channel the hook owns, one tick is delivered, and the context
 // is cancelled so that the loop exits as soon as the round is over.
 func VerifMasterRound(s *Slice, downAfterNoAlive int) {
+	verifPatch()
 	ch := make(chan time.Time) // unbuffered: the send returns when the loop took the tick
-	m := mockey.Mock(time.NewTicker).To(func(d time.Duration) *time.Ticker {
-		return &time.Ticker{C: ch}
-	}).Build()
-	defer m.UnPatch()
+	verifTickCh.Store(verifTick{ch: ch})
+	defer verifTickCh.Store(verifTick{})
 	ctx, cancel := context.WithCancel(context.Background())
 	done := make(chan struct{})
 	go func() {
